@@ -154,6 +154,20 @@ def check_bank(rec, st, blz, acct):
     return want, m
 
 
+def sparse_accounts(max_nonzero=3):
+    """every ten-digit account with at most `max_nonzero` non-zero digits (91,216 for 3): long zero runs, single digits in
+    every position - where strip/shift/int() shortcuts and range special cases go wrong. Complete enumeration."""
+    from itertools import combinations, product
+    yield "0000000000"
+    for k in range(1, max_nonzero + 1):
+        for pos in combinations(range(10), k):
+            for digs in product("123456789", repeat=k):
+                a = ["0"] * 10
+                for p_, d_ in zip(pos, digs):
+                    a[p_] = d_
+                yield "".join(a)
+
+
 def accounts(rng, n_uniform, n_short, n_bodies):
     for _ in range(n_uniform):
         yield "uniform", f"{rng.randrange(10 ** 10):010d}"
@@ -181,13 +195,15 @@ def shard_method(arg):
     banks = st["by_method"].get(m, [])
     quick = tier == "quick"
     k = 0
-    if lo is None:
+    if lo == "sparse":
+        src = (("sparse", a) for a in sparse_accounts(2 if quick else 3))
+    elif lo is None:
         src = accounts(rng, *( (3000, 1500, 500) if quick else (250000, 80000, 12000) ))
     else:
         src = (("range", f"{n:010d}") for n in range(lo, hi))
     for cls, acct in src:
         blz = None
-        if banks and (cls != "range") and k % (4 if quick else 8) == 0:
+        if banks and (cls not in ("range", "sparse") or k % 16 == 0) and k % (4 if quick else 8) == 0:
             blz = banks[(k // 4) % len(banks)]
         k += 1
         want = check_method(rec, m, acct, blz)
@@ -198,11 +214,14 @@ def shard_method(arg):
             continue
         rec.classes[f"{m}-{'accept' if want else 'reject'}"] += 1
         rem = ode.remainder_info(m, acct)
-        if cls in ("boundary", "directed", "range") or rem in (0, 1, 10):
+        if cls in ("boundary", "directed", "range", "sparse") or rem in (0, 1, 10):
             rec.nt.add(hash((m, acct)))
         if cls == "directed" and rec.classes[f"{m}-{'accept' if want else 'reject'}"] <= 1:
             rec.sample(f"{m}", {"method": m, "account": acct, "reference": want, "via_bank": blz})
-    if lo is not None:
+    if lo == "sparse":
+        rec.exhaustive.append("every account with at most 2 (thorough: 3) non-zero digits, for every method")
+        rec.classes["sparse-accounts"] += k
+    elif lo is not None:
         rec.exhaustive.append("all accounts 0..999,999 for every method")
     return rec
 
@@ -280,6 +299,7 @@ def run(ctx):
     ctx.assumptions = ["methods 13, 63, 68 (<6 digits), 76: sub-account / remainder-10 regions are undecided and tolerated",
                        "a method key present in the tree without a reference is a harness error, not a pass"]
     shards = [(m, ctx.seed, ctx.tier, None, None) for m in st["impl"]]
+    shards += [(m, ctx.seed, ctx.tier, "sparse", None) for m in st["impl"]]
     if not ctx.quick:
         for m in st["impl"]:
             for lo in range(0, 1000000, 250000):
@@ -294,7 +314,7 @@ def run(ctx):
         need.append(f"{m}-accept")
         if m != "09":
             need.append(f"{m}-reject")
-    ctx.require_classes("sibling-warmup", "argument-forms", "bank-implemented", "bank-unimplemented-method", "bank-unlisted", "metamorphic-pair", *need)
+    ctx.require_classes("sparse-accounts", "sibling-warmup", "argument-forms", "bank-implemented", "bank-unimplemented-method", "bank-unlisted", "metamorphic-pair", *need)
     ctx.extra["per_method"] = {m: {"accept": ctx.rec.classes.get(f"{m}-accept", 0), "reject": ctx.rec.classes.get(f"{m}-reject", 0),
                                    "undecided": ctx.rec.classes.get(f"{m}-undecided", 0)} for m in st["impl"]}
     ctx.extra["implemented_methods"] = len(st["impl"])
